@@ -2,6 +2,7 @@
 Props/C07.lean — C07 "Saving unchanged tags is lossless and idempotent".
 -/
 import MutagenModel.Proofs.Container.Flac
+import MutagenModel.Proofs.TagOrder
 set_option linter.unusedVariables false
 namespace Mutagen.C07
 open Mutagen Mutagen.FlacC Mutagen.Generated
@@ -23,5 +24,38 @@ theorem flac_resave_lossless (L : Layout) (pad : PadChoice) :
   apply filter_pad_newBlocks
   · intro b hb; simpa using (List.mem_filter.mp hb).2
   · rfl
+
+/-! ## insertion order (ID3, APEv2) -/
+
+open Mutagen.TagOrder in
+/-- APEv2: the item bytes written depend only on the set of items, not on the order in which
+the keys were inserted: any two orderings (permutations) of the same items give the same
+bytes.  No hypothesis: the sort key `(len(encoded), encoded)` is the item itself. -/
+theorem ape_order_independent (items₁ items₂ : List Ape.Item) (h : items₁.Perm items₂) :
+    apeBody items₁ = apeBody items₂ := by
+  unfold apeBody
+  rw [mergeSort_perm_eq apeLe _ _ apeLe_trans apeLe_total
+    (fun a b _ _ => apeLe_antisymm a b) (h.map Ape.encodeItem)]
+
+open Mutagen.TagOrder in
+/-- ID3: the frame bytes written depend only on the set of frames, given that hash keys
+identify frames (they are the keys of the tag dictionary): the sort key
+`(priority, len(data), HashKey)` is total and ties are impossible. -/
+theorem id3_order_independent (frames₁ frames₂ : List Frame) (h : frames₁.Perm frames₂)
+    (huniq : ∀ a b, a ∈ frames₁ → b ∈ frames₁ → a.hashKey = b.hashKey → a = b) :
+    id3Body frames₁ = id3Body frames₂ := by
+  unfold id3Body
+  rw [mergeSort_perm_eq frameLe _ _ frameLe_trans frameLe_total
+    (fun a b ha hb hab hba => huniq a b ha hb (frameLe_antisymm_key a b hab hba)) h]
+
+open Mutagen.TagOrder in
+/-- the uniqueness hypothesis is needed: two frames with equal priority, size and hash key but
+different bytes are written in insertion order (cannot happen in a dictionary keyed by HashKey) -/
+example : id3Body [⟨7, [1], [65]⟩, ⟨7, [2], [65]⟩] ≠ id3Body [⟨7, [2], [65]⟩, ⟨7, [1], [65]⟩] := by
+  simp [id3Body, List.mergeSort, List.MergeSort.Internal.splitInTwo, frameLe, lexLe]
+
+open Mutagen.TagOrder in
+example : apeBody [⟨[84], 0, [97]⟩, ⟨[65], 0, [98, 99]⟩] = apeBody [⟨[65], 0, [98, 99]⟩, ⟨[84], 0, [97]⟩] := by
+  simp [apeBody, List.mergeSort, List.MergeSort.Internal.splitInTwo, apeLe, lexLe, Ape.encodeItem, toLE, bytesNat]
 
 end Mutagen.C07
